@@ -27,10 +27,13 @@ type svidSource struct {
 // GetX509SVID returns the current X.509 certificate identity as a SPIFFE SVID.
 // Implements the go-spiffe x509 source interface.
 func (s *svidSource) GetX509SVID() (*x509svid.SVID, error) {
+	// Wait for readiness before taking the lock: Run needs the write lock to
+	// perform the initial fetch, so a reader blocked here while holding the
+	// read lock would deadlock with it.
+	<-s.spiffe.readyCh
+
 	s.spiffe.lock.RLock()
 	defer s.spiffe.lock.RUnlock()
-
-	<-s.spiffe.readyCh
 
 	svid := s.spiffe.currentSVID
 	if svid == nil {
